@@ -83,7 +83,15 @@ def step (σ : St) (op obs : List String) : St × List Msg :=
       let modelStrs := ((nodes m).zip σ.ids).map fun p => showRoute p.2 p.1
       let diffs := if modelStrs.length ≠ nodesObs.length then [Msg.diff "build.count" (toString modelStrs.length) (toString nodesObs.length)]
         else (modelStrs.zip nodesObs).flatMap fun p => expectEq "build.node" p.1 p.2
-      (σ, diffs ++ inheritCheck σ sh ++ buildTags σ)
+      -- route_key_spec: a route's key is its parent's key + "/" + the SORTED matchers, so that every process (cluster
+      -- member, restart, reload) derives the same group keys — they are the keys of the replicated notification log
+      let keyOf (x : String) : String := (x.splitOn "|").getD 2 ""
+      let pfKey : List Msg := if modelStrs.length ≠ nodesObs.length then [] else
+        (modelStrs.zip nodesObs).flatMap fun p =>
+          if keyOf p.1 = keyOf p.2 then [] else
+            [Msg.propfail "route_key_spec" "key-not-canonical"
+              s!"route {(p.2.splitOn "|").headD "?"}: key {unhexStr (keyOf p.2)}, canonical (sorted matchers along the path) {unhexStr (keyOf p.1)}"]
+      (σ, diffs ++ pfKey ++ inheritCheck σ sh ++ buildTags σ)
     | _, _ => (σ, [.diff "build" "no-root" "ok"])
   | ["match", lsTok], [idsTok, verdictTok, oracleTok] =>
     let σ := if σ.model.isNone then σ.buildModel else σ
